@@ -18,6 +18,14 @@ func init() {
 			GenC05Async(c)
 			// tsquery clause: planning with Execute/Filter opens and pulls nothing (cases "Q ...", query family)
 			GenC05Query(c)
+			// broken-out Iterator loops: pulls = elements seen
+			for _, src := range []string{"1,2,3,4,5,6,7,8,9,10,11,12", "5", "-", "3,1,2!e3"} {
+				for _, idx := range []string{"idx=0", "idx=1"} {
+					for _, b := range []string{"-", "0", "1", "3", "11", "20"} {
+						c.Case(b != "-", fmt.Sprintf("L iter %s break=%s %s", idx, b, src))
+					}
+				}
+			}
 		},
 		Exec: func(caseText string) string {
 			if strings.HasPrefix(caseText, "A ") {
@@ -28,6 +36,11 @@ func init() {
 			}
 			if strings.HasPrefix(caseText, "Q ") {
 				return ExecC05Query(caseText)
+			}
+			if strings.HasPrefix(caseText, "L ") {
+				// Iterator / IndexedIterator loops with a break (executor and model shared with C04's second part): the
+				// observation carries how many elements the loop made the source hand out
+				return ExecC04Ext(caseText)
 			}
 			return execPipe(caseText)
 		},
